@@ -84,7 +84,7 @@ Qed.
 
 (* the former premise of C01/C02, for this agreement *)
 Theorem tc_annotations_typed_rt p p' :
-  typecheck p = Accept p' -> prog_syn_ok p = true -> rt_syn_ok p = true -> p_assumed p' = [] ->
+  typecheck p = Accept p' -> prog_syn_ok p = true -> raw_ok p = true -> p_assumed p' = [] ->
   static_typed (teq_rt (p_types p')) p'.
 Proof.
   apply (tc_annotations_typed_thm teq_rt teq_rt_alg teq_rt_refl teq_rt_sym teq_rt_trans teq_rt_unfold).
